@@ -4,6 +4,7 @@ import (
 	"bytes"
 	"context"
 	"errors"
+	"strings"
 	"time"
 
 	"github.com/benhoyt/goawk/internal/compiler"
@@ -53,24 +54,48 @@ func VerifC15PollBeforeDispatch() {
 		"the interpreter state changed although the context was already cancelled")
 }
 
-// counter invariant: one checkContext call either polls (and resets the counter) or leaves it below the threshold
-func VerifC15Counter() {
-	prog := verifParse(`BEGIN { x = 1 }`)
-	p := newInterp(prog)
-	c := verifInt()
-	verifAssume(c >= 0 && c < checkContextOps)
-	cancelled := verifBool()
-	verifWithContext(p, cancelled, c)
-	err := p.checkContext()
-	if c+1 < checkContextOps {
-		verifAssert(err == nil && p.ctxOps == c+1, "below the threshold checkContext must only count")
-	} else {
-		verifAssert(p.ctxOps == 0, "at the threshold the counter must be reset")
-		verifAssert((err == verifCanceled) == cancelled && (err == nil) == !cancelled, "at the threshold the context must be polled and its error returned iff it is done")
+// bounded latency: with the context already done and the poll counter anywhere in [0, threshold), every kind of
+// program stops with the context's error after at most about a thousand further instructions, also when its
+// blocks are left through next, return, exit or break (the counter is shared by nested executions)
+func VerifC15Bounded() {
+	progs := []string{
+		`BEGIN { while (1) n++ }`,
+		`function f() { n++; return } BEGIN { while (1) f() }`,
+		`function f(d) { n++; if (d > 0) f(d - 1); return d } BEGIN { while (1) f(3) }`,
+		`BEGIN { for (i = 0; i < 5; i++) a[i]; while (1) for (k in a) { n++; if (k == 2) break } }`,
+		`BEGIN { do { n++; if (n % 2) continue } while (1) }`,
 	}
-	// nested execute calls share the counter (it lives in the interpreter), so at most checkContextOps
-	// dispatches separate two polls whatever the nesting
-	verifAssert(p.ctxOps >= 0 && p.ctxOps < checkContextOps, "counter left outside [0, threshold)")
+	src := progs[verifIntRange(0, len(progs)-1)]
+	prog := verifParse(src)
+	p := newInterp(prog)
+	c := []int{0, 1, checkContextOps / 2, checkContextOps - 2, checkContextOps - 1}[verifIntRange(0, 4)]
+	verifWithContext(p, true, c)
+	err := p.execute(prog.Compiled.Begin)
+	verifReach("stopped")
+	verifAssert(err == verifCanceled, "a cancelled context did not stop the program with the context's error")
+	verifAssert(verifGlobal(p, "n").n <= checkContextOps, "the program kept running for more than the polling interval after the context was cancelled")
+}
+
+// the same in the main loop: rules that end with next (or call a function that does) over many records
+func VerifC15BoundedRecords() {
+	progs := []string{
+		`{ n++; next }`,
+		`function f() { n++; next } { f() }`,
+		`{ n++ } END { while (1) m++ }`,
+	}
+	src := progs[verifIntRange(0, len(progs)-1)]
+	prog := verifParse(src)
+	p := newInterp(prog)
+	var input []byte
+	for i := 0; i < 1200; i++ {
+		input = append(input, 'r', '\n')
+	}
+	verifAssert(p.setExecuteConfig(&Config{Stdin: bytes.NewReader(input), Output: &bytes.Buffer{}, Error: &bytes.Buffer{}, Environ: []string{}}) == nil, "config")
+	c := verifIntRange(0, 1) * (checkContextOps - 1)
+	verifWithContext(p, true, c)
+	_, err := p.executeAll()
+	verifAssert(err == verifCanceled, "a cancelled context did not stop the main loop with the context's error")
+	verifAssert(verifGlobal(p, "n").n <= checkContextOps && verifGlobal(p, "m").n <= checkContextOps, "the main loop kept processing records for more than the polling interval after the context was cancelled")
 }
 
 // a context that is never cancelled is invisible: same final state as without context checking,
@@ -116,15 +141,25 @@ func VerifC15ErrorPreference() {
 	}
 }
 
-// child processes are started with the context exactly when context checking is on
+// child processes are started with the context exactly when context checking is on (also when a stale
+// context from an earlier ExecuteContext is still stored in the interpreter), for every way of starting one
 func VerifC15ShellContext() {
-	prog := verifParse(`BEGIN { }`)
+	stmts := []string{`system("cmd")`, `print "x" | "cmd"`, `"cmd" | getline x`, `printf "x" | "cmd"; close("cmd")`}
+	prog := verifParse(`BEGIN { ` + stmts[verifIntRange(0, len(stmts)-1)] + ` }`)
 	p := newInterp(prog)
-	p.shellCommand = []string{"/nonexistent/gosym-no-shell"}
-	withCtx := verifBool()
-	if withCtx {
+	verifAssert(p.setExecuteConfig(&Config{Stdin: bytes.NewReader(nil), Output: &bytes.Buffer{}, Error: &bytes.Buffer{}, Environ: []string{}, ShellCommand: []string{"/nonexistent/gosym-no-shell"}}) == nil, "config")
+	mode := verifIntRange(0, 2) // 0: no context at all, 1: context being checked, 2: stale context, checking off (plain Execute after ExecuteContext)
+	switch mode {
+	case 1:
 		verifWithContext(p, false, 0)
+	case 2:
+		verifWithContext(p, true, 0)
+		p.checkCtx = false
 	}
-	cmd := p.execShell("cmd")
-	verifAssert((cmd.Cancel != nil) == withCtx, "execShell must use CommandContext exactly when a context is being checked")
+	err := p.execute(prog.Compiled.Begin)
+	verifAssert(err == nil, "program failed")
+	log := verifEventLog()
+	if verifInEngine() {
+		verifAssert(strings.Contains(log, "command:") && strings.Contains(log, "commandcontext") == (mode == 1), "a child process must be started with the context exactly when the context is being checked")
+	}
 }
